@@ -67,3 +67,8 @@ package jerr
 //@   ensures e.includeTrace.arr == old(e.includeTrace.arr) || fresh(e.includeTrace.arr)
 //@   ensures e.includeTrace[len(e.includeTrace)-1].path == f.name
 //@   ensures[C07,@trace-line] e.includeTrace[len(e.includeTrace)-1].atLine == lineOf(f.content.data.arr, f.content.data.off, len(f.content.data), atByte)
+
+// the message of an error with its include trace: a function of the error, writes nothing the caller can see (assumed)
+//@ func (*JApiError).Error(e)
+//@   attr trusted
+//@   modifies nothing
